@@ -46,6 +46,60 @@ enum From {
     Either,
 }
 
+/// Set algebra on elements WITHOUT drop glue whose `==` is not bit equality (one-byte `Tiny`, four-byte
+/// `Word`, thin references `&u32` compared through the pointee): the two operands hold equal elements that
+/// differ in their bits (another tag / another address).  Lists, not sets, are compared; `next()` and `fold`
+/// both; the predicates and `-` as well.
+fn plain_pair<T: Clone + PartialEq + 'static, const N: usize, const M: usize>(descr: &str, tname: &str, la: &[u32], lb: &[u32], mk: &dyn Fn(u32, u32) -> T, class_of: &dyn Fn(&T) -> u32) {
+    let mut a: Set<T, N> = Set::new();
+    let mut b: Set<T, M> = Set::new();
+    for c in la {
+        a.insert(mk(*c, 1));
+    }
+    for c in lb {
+        b.insert(mk(*c, 2));
+    }
+    let inb = |c: &u32| lb.contains(c);
+    let ina = |c: &u32| la.contains(c);
+    let sorted = |mut x: Vec<u32>| {
+        x.sort_unstable();
+        x
+    };
+    let diff: Vec<u32> = la.iter().copied().filter(|c| !inb(c)).collect();
+    let rdiff: Vec<u32> = lb.iter().copied().filter(|c| !ina(c)).collect();
+    let inter: Vec<u32> = la.iter().copied().filter(inb).collect();
+    let uni: Vec<u32> = lb.iter().copied().chain(diff.iter().copied()).collect();
+    let sym: Vec<u32> = diff.iter().copied().chain(rdiff.iter().copied()).collect();
+    macro_rules! both {
+        ($name:expr, $it:expr, $want:expr) => {{
+            let by_next: Vec<u32> = $it.map(|x| class_of(x)).collect();
+            let by_fold: Vec<u32> = $it.fold(Vec::new(), |mut acc, x| {
+                acc.push(class_of(x));
+                acc
+            });
+            let want = sorted($want.clone());
+            if sorted(by_next.clone()) != want {
+                v("C08", "result(plain elements)", format!("[{} as Set<{}>] {} yields classes {:?}; mathematically {:?}", descr, tname, $name, by_next, want));
+            }
+            if sorted(by_fold.clone()) != want {
+                v("C08", "fold(plain elements)", format!("[{} as Set<{}>] {} folds over classes {:?}; mathematically {:?}", descr, tname, $name, by_fold, want));
+            }
+        }};
+    }
+    both!("union", a.union(&b), uni);
+    both!("intersection", a.intersection(&b), inter);
+    both!("difference", a.difference(&b), diff);
+    both!("symmetric_difference", a.symmetric_difference(&b), sym);
+    let d: Set<T, N> = &a - &b;
+    if sorted(d.iter().map(|x| class_of(x)).collect()) != sorted(diff.clone()) {
+        v("C08", "sub-result(plain elements)", format!("[{} as Set<{}>] `&a - &b` is not the mathematical difference {:?}", descr, tname, diff));
+    }
+    let (sub, sup, dis) = (la.iter().all(inb), lb.iter().all(ina), inter.is_empty());
+    if a.is_subset(&b) != sub || a.is_superset(&b) != sup || a.is_disjoint(&b) != dis {
+        v("C08", "predicates(plain elements)", format!("[{} as Set<{}>] is_subset/is_superset/is_disjoint = {}/{}/{}; mathematically {}/{}/{}", descr, tname, a.is_subset(&b), a.is_superset(&b), a.is_disjoint(&b), sub, sup, dis));
+    }
+}
+
 impl<'a> Alg<'a> {
     /// Check one lazy iterator `it` (cloneable) against the expected class set.
     #[allow(clippy::too_many_arguments)]
@@ -213,6 +267,27 @@ impl<'a> Alg<'a> {
         self.cx.rep.hit(if sup { "is_superset:true" } else { "is_superset:false" });
         self.cx.rep.hit(if dis { "is_disjoint:true" } else { "is_disjoint:false" });
 
+        // the same operand pair with plain (drop-less, not bitwise-equal) element types
+        if self.pair_no % 4 == 0 && la.iter().chain(lb.iter()).all(|c| *c < 32) {
+            use support::elems::{Tiny, Word};
+            ledger::set_ctx(self.pair_no, 0, "plain-elements");
+            self.cx.rep.evaluations += 3;
+            self.cx.rep.hit("plain-elements");
+            plain_pair::<Tiny, N, M>(&self.descr, "Tiny(1 byte)", la, lb, &|c, t| Tiny::new(c, t), &|x| x.class());
+            plain_pair::<Word, N, M>(&self.descr, "Word(4 bytes)", la, lb, &|c, t| Word::new(c, t), &|x| x.class());
+            // thin references compared through the pointee: the two operands point at different cells
+            static CELLS: [[u32; 32]; 2] = {
+                let mut c = [[0u32; 32]; 2];
+                let mut i = 0;
+                while i < 32 {
+                    c[0][i] = i as u32;
+                    c[1][i] = i as u32;
+                    i += 1;
+                }
+                c
+            };
+            plain_pair::<&'static u32, N, M>(&self.descr, "&u32", la, lb, &|c, t| &CELLS[(t as usize) % 2][c as usize], &|x| **x);
+        }
         // `&a - &b`: a new set of clones of the left operand's elements
         ledger::set_ctx(self.pair_no, 0, "sub");
         self.cx.rep.evaluations += 1;
